@@ -51,7 +51,7 @@ def REQUIRED(tier):
 def _required(tier):
     return ["ops:seek_set", "ops:seek_cur", "ops:cread", "ops:creadinto", "position_checks", "content_checks",
             "regime:read_spans_two_boundaries", "regime:seek_back_over_boundary", "regime:creadinto_hits_end",
-            "regime:cread_past_end_raises", "regime:absolute_seek_after_refused_cread", "regime:position_exactly_at_boundary", "read_block:in_range", "read_block:rejected", "regime:member_file_with_trailing_partial_sample", "regime:file_listed_twice", "regime:relative_names_then_chdir", "giant_stream_ops", "regime:members_not_in_time_order", "ops:seek_by_one_header_length"]
+            "regime:cread_past_end_raises", "regime:absolute_seek_after_refused_cread", "regime:second_reader_interleaved", "read_block:same_request_after_in_place_edit", "regime:position_exactly_at_boundary", "read_block:in_range", "read_block:rejected", "regime:member_file_with_trailing_partial_sample", "regime:file_listed_twice", "regime:relative_names_then_chdir", "giant_stream_ops", "regime:members_not_in_time_order", "ops:seek_by_one_header_length"]
 
 
 def EXHAUSTIVE(tier):
@@ -179,7 +179,24 @@ def run_history(ctx, hdr_sinfo, nbits, model, bounds, ops, case_rec):
 
     try:
         after_raise = False
+        rd2 = None
         for step, (name, arg) in enumerate(ops):
+            if step % 5 == 2 and T >= 2 * isz and len(ops) > 6:
+                # a second reader on the same files, alive at the same time and used in turn: each has its own position (and its own open files)
+                ctx.count("regime:second_reader_interleaved")
+                if rd2 is None:
+                    rd2 = FileReader(hdr_sinfo, mode="r", nbits=nbits)
+                o2 = ((step * 7919) % (T // isz)) * isz
+                n2 = min(3, (T - o2) // isz)
+                rd2.seek(o2, 0)
+                got2 = np.asarray(rd2.cread(n2 * per)).tobytes()
+                seg2 = model[o2 : o2 + n2 * isz]
+                want2 = sigfile.unpack_bits(seg2, nbits, sigfile.default_order(nbits)).tobytes() if per > 1 else seg2
+                if got2 != want2:
+                    return viol("second-reader-content", f"step {step}: a second reader on the same files read {got2[:16].hex()} at {o2}, want {want2[:16].hex()}")
+                if step % 10 == 7:
+                    rd2.close()       # closing one reader must not close the other's files
+                    rd2 = None
             if after_raise:
                 # a refused counted read leaves the position unspecified; an absolute in-range seek defines it again and the reader must go on working
                 if name != "ss" or arg >= T:
@@ -286,10 +303,12 @@ def run_history(ctx, hdr_sinfo, nbits, model, bounds, ops, case_rec):
             if np.asarray(arr).tobytes() != wantb:
                 return viol("cread-result-changed-by-later-reads", f"the array returned by counted read #{i} of this history no longer holds its slice of the stream after later reads")
     finally:
-        try:
-            rd.close()
-        except Exception:  # noqa: BLE001
-            pass
+        for r_ in (rd, rd2):
+            try:
+                if r_ is not None:
+                    r_.close()
+            except Exception:  # noqa: BLE001
+                pass
     if len(touched) >= 2 or crossing:
         ctx.nontrivial_case(case_rec)
     return True
@@ -534,6 +553,17 @@ def run_case(case, ctx):
                 if blk.data.shape != want.shape or not np.array_equal(blk.data.astype(np.float64), want):
                     ctx.violation("read_block-content", f"read_block({start},{nsamps}) shape {blk.data.shape} vs {want.shape} or values differ", one)
                     continue
+                if (start + nsamps) % 3 == 0:
+                    # the caller cleans the block it was given in place and asks for the same range again: the file has not changed
+                    try:
+                        np.asarray(blk.data)[...] = -7.0
+                    except ValueError:
+                        pass
+                    ctx.count("read_block:same_request_after_in_place_edit")
+                    blk2 = fil.read_block(start, nsamps)
+                    if blk2.data.shape != want.shape or not np.array_equal(blk2.data.astype(np.float64), want):
+                        ctx.violation("read_block-content:after-in-place-edit-of-earlier-block", f"read_block({start},{nsamps}) repeated after the first block was overwritten in place does not return the file's samples", one)
+                        continue
                 if any(start * 1 < b / max(1, (nch * nbits // 8)) < start + nsamps for b in bounds):
                     ctx.nontrivial_case(one)
             else:
